@@ -8,7 +8,9 @@ package nsqd
 // (id, attempts, timestamp, body) are compared with Model/Life.lean + Model/Restart.lean.
 
 import (
+	"encoding/json"
 	"fmt"
+	"os"
 	"sort"
 	"strings"
 	"sync/atomic"
@@ -27,7 +29,30 @@ func (l *vfE5Life) closeAll() {
 			c.RUnlock()
 		}
 	}
+	if os.Getenv("VERIF_DBG") != "" {
+		for _, t := range l.topics() {
+			fmt.Printf("E5DBG before exit %s depth=%d paused=%v", t.name, t.Depth(), t.IsPaused())
+			for _, c := range l.chans(t) {
+				fmt.Printf(" %s:depth=%d,n=%d", c.name, c.Depth(), c.messageCount)
+			}
+			fmt.Println()
+		}
+	}
+	dbgT := l.topics()
+	dbgC := map[string][]*Channel{}
+	for _, t := range dbgT {
+		dbgC[t.name] = l.chans(t)
+	}
 	l.n.Exit()
+	if os.Getenv("VERIF_DBG") != "" {
+		for _, t := range dbgT {
+			fmt.Printf("E5DBG after exit %s backend=%d paused=%v n=%d", t.name, t.backend.Depth(), t.IsPaused(), t.messageCount)
+			for _, c := range dbgC[t.name] {
+				fmt.Printf(" %s:backend=%d,n=%d", c.name, c.backend.Depth(), c.messageCount)
+			}
+			fmt.Println()
+		}
+	}
 	sort.Slice(subs, func(i, j int) bool { return subs[i] < subs[j] })
 	var closed []string
 	for _, k := range subs {
@@ -37,6 +62,82 @@ func (l *vfE5Life) closeAll() {
 	}
 	l.op("closeall", "ok closed=["+strings.Join(closed, ",")+"]")
 	l.out.Case("files", vfE5Files(l.dir))
+}
+
+// backlogBeforeExit produces the on-disk state that a shutdown racing the topic pump leaves — an
+// *unpaused* topic that has channels and a backlog in its own queue — without a race: the topic is
+// paused (so the messages published now stay in the topic queue and Exit() flushes them to the
+// topic's disk queue), and after Exit() the topic's entry in nsqd.dat is rewritten to paused=false.
+// (Clearing the flag in memory instead is racy: the pump re-reads it whenever its last wake-up's
+// handler happens to run.)  After the restart the pump must hand the backlog to *every* reloaded
+// channel.  The model sees `ptopic t 0` before `closeall`.
+func (l *vfE5Life) backlogBeforeExit() []string {
+	var chosen []*Topic
+	for _, t := range l.topics() {
+		cs := l.chans(t)
+		if t.ephemeral || len(cs) == 0 || l.r.Intn(2) == 0 {
+			continue
+		}
+		eph := false
+		for _, c := range cs {
+			if c.ephemeral {
+				eph = true
+			}
+		}
+		if eph {
+			continue // which messages an overflowing ephemeral channel keeps is the runtime's choice
+		}
+		chosen = append(chosen, t)
+		if !t.IsPaused() {
+			t.Pause()
+			l.op(fmt.Sprintf("ptopic %s 1", t.name), "ok")
+		}
+	}
+	l.settle()
+	l.out.Case("settle", "ok")
+	var names []string
+	for _, t := range chosen {
+		for i, k := 0, 1+l.r.Intn(4); i < k; i++ {
+			body := l.r.Bytes(l.r.Intn(9))
+			m := NewMessage(t.GenerateID(), body)
+			line := fmt.Sprintf("pub %s %s %d %s", t.name, vfE5IDNum(m.ID), m.Timestamp, vfHex(body))
+			if err := t.PutMessage(m); err != nil {
+				l.op(line, "exiting")
+			} else {
+				l.op(line, "ok")
+			}
+		}
+		l.op(fmt.Sprintf("ptopic %s 0", t.name), "ok")
+		names = append(names, t.name)
+	}
+	return names
+}
+
+// unpauseOnDisk rewrites nsqd.dat with paused=false for the given topics.
+func vfE5UnpauseOnDisk(t *testing.T, dir string, names []string) {
+	if len(names) == 0 {
+		return
+	}
+	fn := dir + "/nsqd.dat"
+	b, err := os.ReadFile(fn)
+	if err != nil {
+		t.Fatal(err)
+	}
+	var m Metadata
+	if err := json.Unmarshal(b, &m); err != nil {
+		t.Fatal(err)
+	}
+	for i := range m.Topics {
+		for _, nm := range names {
+			if m.Topics[i].Name == nm {
+				m.Topics[i].Paused = false
+			}
+		}
+	}
+	out, _ := json.Marshal(&m)
+	if err := os.WriteFile(fn, out, 0600); err != nil {
+		t.Fatal(err)
+	}
 }
 
 func TestVerifE5RestartCorr(t *testing.T) {
@@ -63,10 +164,20 @@ func TestVerifE5RestartCorr(t *testing.T) {
 			if cy == cycles {
 				break
 			}
+			unp := l.backlogBeforeExit()
 			l.closeAll()
+			vfE5UnpauseOnDisk(t, dir, unp)
 			nextK := l.nextK
 			l = vfE5NewLife(t, out, r, dir, memq, hist)
 			l.nextK = nextK
+			if os.Getenv("VERIF_DBG") != "" {
+				fmt.Println("E5DBG after new: " + l.dump())
+				ents, _ := os.ReadDir(dir)
+				for _, e := range ents {
+					i, _ := e.Info()
+					fmt.Println("E5DBG   ", e.Name(), i.Size())
+				}
+			}
 			l.op(fmt.Sprintf("reload %d", memq), "ok")
 			l.out.Case("filesexact", vfE5Files(l.dir))
 			l.settle()
